@@ -890,16 +890,41 @@ def gen_prim_src(r: Any, depth: int = 2, *, rng_ok: bool = True) -> str:
 def gen_bool_src(r: Any, depth: int, *, minimal: bool | None = None) -> str:
     """A Boolean expression; grouping is written with parentheses either
     everywhere or only where the parser needs them."""
-    def tree(d: int) -> Any:
-        k = r.random()
-        if d <= 0 or k < 0.3:
-            return ("p", gen_prim_src(r, 1))
-        if k < 0.45:
-            return ("n", tree(d - 1))
+    def leaf() -> Any:
+        return ("p", gen_prim_src(r, 1))
+
+    def pick_op() -> str:
         # equality and logic never raise at render time; ordering and
         # membership raise LiquidTypeError on many operand types
-        op = r.choice(OPS) if r.random() < 0.35 else r.choice(["==", "!=", "and", "or", "and", "or", "<>"])
-        return ("b", op, tree(d - 1), tree(d - 1))
+        return r.choice(OPS) if r.random() < 0.35 else r.choice(["==", "!=", "and", "or", "and", "or", "<>"])
+
+    def spine(d: int) -> Any:
+        """`L op0 X` where L's right spine `x1 op1 (x2 op2 (... not z))` needs no
+        parentheses of its own (precedences do not decrease) and ends, two or
+        more infix levels down, in an open `not`: the whole of L must then be
+        parenthesised, whatever the precedence of op0."""
+        k = r.choice([2, 2, 3, 4])
+        ops = sorted((pick_op() for _ in range(k)), key=lambda o: OP_PREC[o])
+        t: Any = ("n", tree(d - 2) if r.random() < 0.4 else leaf())
+        if r.random() < 0.3:
+            t = ("n", t)
+        for o in reversed(ops):
+            t = ("b", o, tree(d - 3) if r.random() < 0.25 else leaf(), t)
+        lower = [o for o in ["or", "and", "==", "!=", "contains"] if OP_PREC[o] <= OP_PREC[ops[0]]]
+        other = tree(d - 2) if r.random() < 0.5 else leaf()
+        if r.random() < 0.8:
+            return ("b", r.choice(lower), t, other)       # the spine is a left operand
+        return ("b", r.choice(lower), other, t)           # ... or a right operand
+
+    def tree(d: int) -> Any:
+        k = r.random()
+        if d <= 0 or k < 0.25:
+            return leaf()
+        if k < 0.45:
+            return ("n", tree(d - 1))
+        if k < 0.6 and d >= 2:
+            return spine(d)
+        return ("b", pick_op(), tree(d - 1), tree(d - 1))
 
     def show(t: Any, pp: int, left: bool, mini: bool) -> tuple[str, bool]:
         if t[0] == "p":
@@ -940,7 +965,7 @@ def gen_lambda_src(r: Any, nparams: int) -> str:
     elif k < 0.7:
         body = f"{r.choice(body_vars)} {r.choice(OPS)} {gen_prim_src(r, 0, rng_ok=False)}"
     else:
-        body = gen_bool_src(r, 2)
+        body = gen_bool_src(r, r.choice([2, 3, 4]))
     head = ps[0] if nparams == 1 and r.random() < 0.8 else "(" + ", ".join(ps) + ")"
     return f"{head} => {body}"
 
@@ -995,7 +1020,7 @@ def gen_fexpr_src(r: Any, *, valid: bool = False, depth: int = 2) -> str:
     pipe = lambda: r.choice([" | ", " | ", "|", " |"])  # noqa: E731
     out = left + "".join(pipe() + gen_filter_src(r, valid=valid) for _ in range(r.choice([0, 0, 1, 1, 2, 3])))
     if r.random() < 0.3:
-        out += " if " + gen_bool_src(r, 2)
+        out += " if " + gen_bool_src(r, r.choice([1, 2, 3, 4]))
         if r.random() < 0.65:
             out += " else " + gen_prim_src(r, 1)
             out += "".join(pipe() + gen_filter_src(r, valid=valid) for _ in range(r.choice([0, 0, 1, 2])))
@@ -1105,7 +1130,7 @@ def gen_line(r: Any, depth: int) -> list[str]:
         return ["echo 'x'"]
     if k < 0.85:
         body = [l for _ in range(r.choice([1, 2])) for l in gen_line(r, depth - 1)]
-        out = ["if " + one(gen_bool_src(r, 2))] + ["  " + l for l in body]
+        out = ["if " + one(gen_bool_src(r, r.choice([2, 3, 4])))] + ["  " + l for l in body]
         if r.random() < 0.4:
             out += ["else"] + gen_line(r, depth - 1)
         return out + ["endif"]
@@ -1160,11 +1185,11 @@ def gen_node(r: Any, depth: int, *, shopify: bool, in_msg: bool = False) -> str:
     if depth <= 0:
         return gen_text(r)
     if k < 0.71:
-        out = tg(r, r.choice(["if ", "unless "]) + gen_bool_src(r, 2))
+        out = tg(r, r.choice(["if ", "unless "]) + gen_bool_src(r, r.choice([1, 2, 3, 4, 5])))
         kind = "endunless" if "unless" in out.split("%}")[0] else "endif"
         out += block()
         for _ in range(r.choice([0, 0, 1, 2])):
-            out += tg(r, "elsif " + gen_bool_src(r, 2)) + block()
+            out += tg(r, "elsif " + gen_bool_src(r, r.choice([1, 2, 3, 4]))) + block()
         if r.random() < 0.5:
             out += tg(r, "else") + block()
         return out + tg(r, kind)
@@ -1245,6 +1270,99 @@ class LimitedEnv(_Environment):
 class LimitedShopifyEnv(_ShopifyEnvironment):
     loop_iteration_limit = 2000
     output_stream_limit = 100_000
+
+
+from liquid2 import DictLoader as _DictLoader  # noqa: E402
+from liquid2.loader import TemplateSource as _TemplateSource  # noqa: E402
+
+
+def _fresh() -> bool:
+    return True
+
+
+def _stale() -> bool:
+    return False
+
+
+class MatterLoader(_DictLoader):
+    """A loader whose templates carry front matter (-> Template.overlay_data)
+    and an `uptodate` callable."""
+
+    def __init__(self, templates: dict[str, str], matter: dict[str, object], fresh: bool):
+        super().__init__(templates)
+        self.matter = matter
+        self.fresh = fresh
+
+    def get_source(self, env: Any, template_name: str, *, context: Any = None, **kwargs: object) -> Any:
+        src = super().get_source(env, template_name, context=context, **kwargs)
+        if template_name != "page":
+            return src
+        return _TemplateSource(src.source, template_name, _fresh if self.fresh else _stale, dict(self.matter))
+
+
+OVERLAY = {"a": {"b": "ov-ab", "x y": 6, "c": [1, 2]}, "x": [{"a": 1, "b": "p"}, {"a": 0, "b": "q"}],
+           "title": "OV-title", "user": {"name": "Ov", "age": 3}, "k": "ov-k", "z": False}
+GLOBALS = {"title": "GL-title", "b": [7, 8, 9], "n": 2, "s": "gl-s", "items": ["g", "h"], "y": {"a": [5], "k": "w"},
+           "c": "gl-c", "k": "gl-k"}
+
+
+def meta_template(shop: bool, src: str, variant: int) -> Any:
+    """`src` as a template that carries name, path, template globals, overlay
+    data and an uptodate callable: built with from_string (variant 0/1) or by
+    a loader with front matter (variant 2/3)."""
+    if variant < 2:
+        t = tag_envs()[shop].from_string(src, name="page.liquid", path="dir/sub/page.liquid",
+                                         globals=dict(GLOBALS), overlay_data=dict(OVERLAY))
+        t.uptodate = _fresh if variant == 0 else _stale
+        return t
+    cls = LimitedShopifyEnv if shop else LimitedEnv
+    env = cls(loader=MatterLoader({**PARTIALS, "page": src}, OVERLAY, variant == 2))
+    return env.get_template("page", globals=dict(GLOBALS))
+
+
+def template_slots(t: Any) -> dict[str, Any]:
+    return {"str": str(t), "name": t.name, "path": None if t.path is None else str(t.path),
+            "full_name": t.full_name(), "global_data": dict(t.global_data),
+            "overlay_data": dict(t.overlay_data), "uptodate": getattr(t.uptodate, "__name__", None),
+            "is_up_to_date": t.is_up_to_date(), "env": type(t.env).__name__}
+
+
+def pickle_meta_oracle(shop: bool, src: str, variant: int) -> tuple[str, str, dict[str, Any]] | None:
+    """Pickling preserves a template that carries overlay data, template
+    globals, name, path and an uptodate callable: every slot and the render
+    outcome on data where names resolve only through overlay/global data."""
+    try:
+        t = meta_template(shop, src, variant)
+    except Exception:  # noqa: BLE001
+        return None
+    info: dict[str, Any] = {"source": src, "variant": ["from_string fresh", "from_string stale",
+                                                       "loader with front matter, fresh",
+                                                       "loader with front matter, stale"][variant],
+                            "overlay_data": OVERLAY, "globals": GLOBALS}
+    try:
+        t3 = pickle.loads(pickle.dumps(t))
+    except Exception as e:  # noqa: BLE001
+        info["error"] = f"{type(e).__name__}: {e}"[:300]
+        return ("oracle:pickle-fails", f"a template with overlay data does not survive pickling: {type(e).__name__}", info)
+    try:
+        s1, s3 = template_slots(t), template_slots(t3)
+    except Exception as e:  # noqa: BLE001
+        info["error"] = f"{type(e).__name__}: {e}"[:300]
+        return ("oracle:pickle-slots-differ", "the unpickled template is missing state", info)
+    if s1 != s3:
+        info["slots"] = {k: (s1[k], s3[k]) for k in s1 if s1[k] != s3[k]}
+        return ("oracle:pickle-slots-differ",
+                "the unpickled template differs in " + ", ".join(sorted(info["slots"])), info)
+    outs = []
+    for data in ({}, {"title": "ARG-title", "n": 1}):
+        o1, o3 = render_outcome(t, data), render_outcome(t3, data)
+        outs.append(o1)
+        if o1 != o3:
+            info.update({"data": data, "out": o1, "out3": o3})
+            return ("oracle:pickle-differs", "the unpickled template renders differently where names "
+                    "resolve through overlay data / template globals", info)
+    info["outs"] = outs
+    return ("", "", info)
 
 
 class Obj:
@@ -1358,6 +1476,14 @@ EXPR_CORPUS = [
     ("bool", "(a == b) == c"), ("bool", "a == (b and c)"), ("bool", "(a and not b) or c"),
     ("bool", "(a == b) contains c"), ("bool", "(a contains b) == c"), ("bool", "a == not b"),
     ("bool", "not (true and (false and (false or a < b)))"), ("bool", "a <> b"), ("bool", "((a))"),
+    ("bool", "(a and b == not c) or d"), ("bool", "((a or b) and c != not d) or e"),
+    ("bool", "(a or b and c == d contains not e) or f"), ("bool", "(a == b contains not not c) and d"),
+    ("bool", "(a and (b or c == not d)) or e"), ("bool", "a or (b and c == not d) or e"),
+    ("bool", "((a and b == not c) == d) and e"), ("bool", "not (a and b == not c) or d"),
+    ("bool", "(not a == not b and not c) or not d"), ("bool", "(a and b == not (c or not d)) and e"),
+    ("bool", "a and (b == not c) or d"), ("bool", "(a == (b and not c)) or d"),
+    ("fexpr", "x | where: i => (i.a and i.b == not i.c) or i.d"),
+    ("fexpr", "x if (a and b == not c) or d else y"), ("fexpr", "x if (a or b != not not c) and d || f: (p, q) => (p and q == not p) or q"),
     ("bool", "(a"), ("bool", "a)"), ("bool", "a and"), ("bool", "not"), ("bool", "(1..3) == (a..b)"),
     ("loop", "i in x limit:2 offset:1 reversed"), ("loop", "i in x reversed, limit: 2 cols=3"),
     ("loop", "i in x offset:continue"), ("loop", "i in x offset: ['continue']"), ("loop", "i in 1, 2, 3"),
@@ -1369,6 +1495,10 @@ TEMPLATE_CORPUS = [
     "{{ nil }}", "{{ x | slice: 1, 3 }}", "{{ ['a b'] }}{{ a['x y'] }}", "{% if a == nil %}1{% endif %}",
     "{% tablerow i in b cols:2 limit: 1 %}{{ i }}{% endtablerow %}",
     "{% if (not a) and b %}1{% else %}0{% endif %}", "{% if (a and not b) or c %}1{% else %}0{% endif %}",
+    "{% if (a and b == not c) or n %}1{% else %}0{% endif %}{% unless ((a or b) and c != not z) or z %}1{% else %}0{% endunless %}",
+    "{% if z %}{% elsif (b and n == 3 contains not z) or z %}1{% else %}0{% endif %}",
+    "{{ 'T' if (a and b == not c) or z else 'F' }}{{ x | where: i => (i.a and i.b == not i.a) or i.zz | size }}",
+    "{% liquid\nif (a and b == not c) or z\n echo 'T'\nelse\n echo 'F'\nendif %}",
     "{{ x | map: i => (i.a or i.b) and i.a | join: ',' }}", "{{ 10000000000000000.0 }}",
     "{{ 'a${b | append: \"x\\ny\"}c' }}", "{{ 'a\\${b}${c}' }}", "{{ '\\u001b' }}",
     "{% increment 'a b' %}{% cycle 'a b': 1, 2 %}{% cycle '': 1, 2 %}{% cycle 1, 2 %}",
@@ -1419,6 +1549,21 @@ def known_mechanism(items: Any) -> str | None:
     return walk(items)
 
 
+def deep_not_in_left(x: Any) -> bool:
+    """Is there an infix expression whose LEFT operand has, two or more infix
+    levels down its right spine, a `not`? (Its printed form then depends on
+    the propagation of the open-`not` flag through several levels.)"""
+    if isinstance(x, tuple) and len(x) == 4 and x[0] == "bin":
+        t, n = x[2], 0
+        while isinstance(t, tuple) and t and t[0] == "bin":
+            t, n = t[3], n + 1
+        if n >= 2 and isinstance(t, tuple) and t and t[0] == "not":
+            return True
+    if isinstance(x, (tuple, list)):
+        return any(deep_not_in_left(y) for y in x)
+    return False
+
+
 def features(d: Any, text: str) -> set[str]:
     """Which printer mechanisms an expression exercises (for the coverage count)."""
     f: set[str] = set()
@@ -1458,6 +1603,8 @@ def features(d: Any, text: str) -> set[str]:
             for y in x:
                 walk(y)
     walk(d)
+    if deep_not_in_left(d):
+        f.add("not-deep-in-left-operand")
     if "(" in text.replace("(..", "") and ("not" in f or "infix" in f):
         f.add("parenthesised")
     return f
@@ -1468,8 +1615,8 @@ def main(chk: C.Check, build: C.Build) -> None:  # noqa: PLR0912, PLR0915
     proofs_ok = C.proof_stage(chk, build, NEEDED)
     thorough = chk.tier == "thorough"
     r = C.rng("c12")
-    n_expr = 3600 if thorough else 330
-    n_tpl = 2600 if thorough else 260
+    n_expr = 3600 if thorough else 400
+    n_tpl = 2600 if thorough else 330
 
     # ---- expression level: correspondence A, B, C
     items: list[dict[str, Any]] = []
@@ -1479,7 +1626,7 @@ def main(chk: C.Check, build: C.Build) -> None:  # noqa: PLR0912, PLR0915
         if kind == "fexpr":
             exprs.append((kind, gen_fexpr_src(r)))
         elif kind == "bool":
-            exprs.append((kind, gen_bool_src(r, r.choice([1, 2, 3, 4]))))
+            exprs.append((kind, gen_bool_src(r, r.choice([1, 2, 3, 4, 4, 5, 6]))))
         else:
             exprs.append((kind, gen_loop_src(r, cols=True)))
     dist: dict[str, int] = {}
@@ -1515,7 +1662,7 @@ def main(chk: C.Check, build: C.Build) -> None:  # noqa: PLR0912, PLR0915
     for _ in range(n_tpl):
         shop = r.random() < 0.3
         tpls.append((shop, gen_template(r, shopify=shop)))
-    t_ok = t_noparse = t_unmodelled = 0
+    t_ok = t_noparse = t_unmodelled = t_meta = t_meta_used = t_deep_not = 0
     outcomes = {"output": 0, "error": 0}
     tpl_nontrivial: set[str] = set()
     tpl_samples: list[dict[str, Any]] = []
@@ -1537,7 +1684,19 @@ def main(chk: C.Check, build: C.Build) -> None:  # noqa: PLR0912, PLR0915
             chk.finding(km or sig, what + (": " + info.get("error", "") if info.get("error") else ""),
                         {"shopify_environment": shop, **info, "how": "harness/c12.py oracle(env, source, data)"})
             continue
+        pm = pickle_meta_oracle(shop, src, t_ok % 4)
+        if pm is not None and pm[0]:
+            chk.finding(pm[0], pm[1], {"shopify_environment": shop, **pm[2],
+                                       "how": "harness/c12.py pickle_meta_oracle(shopify, source, variant)"})
+            continue
+        if pm is not None:
+            t_meta += 1
+            # did overlay data / template globals decide the output?
+            if pm[2]["outs"][0] != info["outs"][0] and pm[2]["outs"][0].startswith("="):
+                t_meta_used += 1
         t_ok += 1
+        if d_items is not None and deep_not_in_left(d_items):
+            t_deep_not += 1
         for o in info["outs"]:
             outcomes["error" if o.startswith("!") else "output"] += 1
         if d_items is None:
@@ -1569,7 +1728,10 @@ def main(chk: C.Check, build: C.Build) -> None:  # noqa: PLR0912, PLR0915
                  "lexed and parsed again, and every step is compared with Kernels/Printer.v (a third also with a "
                  "mutated token stream, for the error paths). Whole templates over every built-in tag, the Shopify "
                  "tablerow tag, all comment kinds, raw, {% liquid %} and all whitespace-control markers go through "
-                 "the direct oracle (reparse, 4 data sets, fixpoint, tree equality incl. the statements of {% liquid %}, pickle) and the markup-level "
+                 "the direct oracle (reparse, 4 data sets, fixpoint, tree equality incl. the statements of {% liquid %}, pickle; "
+                 "and pickle of the same template carrying overlay data, template globals, name, path and an uptodate "
+                 "callable — built by from_string or by a loader with front matter — comparing every slot and the "
+                 "output on data where names resolve only through overlay data / globals) and the markup-level "
                  "text comparison. Non-trivial = distinct printed expressions that use at least one printer "
                  "mechanism (escape, bracket segment, grouping, lambda, keyword argument, ternary, range, array, "
                  "number) + distinct printed templates with >= 2 markup items that produced output."),
@@ -1581,6 +1743,9 @@ def main(chk: C.Check, build: C.Build) -> None:  # noqa: PLR0912, PLR0915
                          "mutated token streams": n_mut, "mechanisms": dict(sorted(dist.items())),
                          "templates": len(tpls), "templates not parseable (skipped)": t_noparse,
                          "templates passing the oracle": t_ok,
+                         "templates with a `not` >= 2 infix levels down the right spine of a left operand": t_deep_not,
+                         "templates pickled with overlay data, globals, name, path, uptodate": t_meta,
+                         "... whose output on empty data depends on overlay data / template globals": t_meta_used,
                          "templates with a node outside the markup model": t_unmodelled,
                          "render outcomes": outcomes},
         "exhaustive": False,
